@@ -662,7 +662,11 @@ class ArmRig:
         if wf == "omitted":
             return ()
         if wf == "wrench":
-            return (self.Wrench(F.copy()),)
+            # ONE Wrench object per case, handed to every call (a user builds the tip wrench once and passes it to
+            # inverse and forward dynamics alike): each call is about the wrench it describes
+            if getattr(self, "_W", None) is None:
+                self._W = self.Wrench(F.copy())
+            return (self._W,)
         return (F.reshape(6, 1).copy(),) if column else (F.copy(),)
 
     def call(self, fn, case, q, a, b, column=False):
